@@ -69,7 +69,16 @@ def oracle(ctx, case, obs, spec):
                          extra={"missing": sorted(missing)}))
         ok = False
     want_text = spec["text"]
-    d = first_diff(obs["text"], want_text)
+    # A choice without any label cell in an itext-bearing list: nothing was written in any language.  The property's
+    # placeholder '-' and an absent label both say so; accept '-' there (any *text* there is still a failure).
+    obs_text = obs["text"]
+    for key, kinds in list(obs_text.items()):
+        if key.startswith("c") and "label" in kinds and "label" not in want_text.get(key, {}):
+            if all(v == L.PLACEHOLDER for v in kinds["label"].values()):
+                obs_text = {**obs_text, key: {k: v for k, v in kinds.items() if k != "label"}}
+                if not obs_text[key]:
+                    del obs_text[key]
+    d = first_diff(obs_text, want_text)
     if d is not None:
         key, kind, lang, got, exp = d
         ctx.fail(Failure("text", f"element {key} {kind} for language {lang!r}: shown {got!r}, written {exp!r}", {"case": case},
@@ -212,6 +221,10 @@ def explore(ctx, factor, bs):
     rng.shuffle(fam)
     for form in fam[: ctx.pick(150, len(fam)) * (1 if factor == 1 else 2)]:
         one_case(ctx, L.render(form), tag="search:")
+    fam = list(L.unlabelled_family())
+    rng.shuffle(fam)
+    for form in fam[: ctx.pick(150, len(fam)) * (1 if factor == 1 else 2)]:
+        one_case(ctx, L.render(form), tag="unlabelled:")
     n = ctx.pick(1500, 40000) * factor
     for i in range(n):
         form = L.random_form(rng, big=not ctx.quick())
